@@ -14,6 +14,7 @@ import (
 	"os"
 	"strconv"
 	"strings"
+	"syscall"
 	"time"
 
 	gnet "github.com/panjf2000/gnet/v2"
@@ -1045,6 +1046,11 @@ func runCase(w *tr.Writer, seed uint64, idx int, focus string) {
 		_ = ci.c.AsyncWrite([]byte("late"), nil)
 	}
 	finalOracles(rec, h, cfg, peers)
+	rec.mu.Lock()
+	for _, fd := range rec.userFds {
+		syscall.Close(fd)
+	}
+	rec.mu.Unlock()
 
 	// ---- write the case
 	w.Case(fmt.Sprintf("L%d", idx), "loop", append(cfg.header(), "seed="+tr.U64(seed), "idx="+tr.I(idx))...)
